@@ -358,8 +358,9 @@ def run(prop, tier="quick", seed=0, replay_path=None):
         "wall_s": round(time.time() - t0, 2),
         "violations": len(viol_records),
     }
-    os.makedirs(os.path.join(ROOT, "evidence"), exist_ok=True)
-    json.dump(ev, open(os.path.join(ROOT, "evidence", prop + ".json"), "w"), indent=1, default=str)
+    evdir = os.environ.get("PYVC_EVIDENCE_DIR") or os.path.join(ROOT, "evidence")
+    os.makedirs(evdir, exist_ok=True)
+    json.dump(ev, open(os.path.join(evdir, prop + ".json"), "w"), indent=1, default=str)
     solve.cleanup()
 
     for l in out_lines:
